@@ -607,6 +607,12 @@ class StateMachine:
                 self.done()
 
                 if self.__should_engage:
+                    # start over: the new run begins at the instant the last
+                    # state expired, and the machine stays engaged
+                    self.__start += state.expires
+                    tm -= state.expires
+                    new_state_start = 0
+                    self.__engaged = True
                     self.next_state(self.__first)
                     state = self.__state
                 else:
